@@ -246,8 +246,13 @@ Quiet(s) ==
 
 Teardown(s) == [s EXCEPT !.off = TRUE]
 
+\* after a free-running burst of AddKeyRef / Release calls (mode M2), at exact quiescence: every key
+\* for which some reference was never released is present (C06: "a reference-counted key is present
+\* while at least one unreleased reference exists") -- order-insensitive, judged once
+RcFinal(s, held, keys) == Flag(s, held \subseteq keys, "RefKeyLost")
+
 -----------------------------------------------------------------------------
-C06Names == {"WantedKeyLost", "SetKeyResult", "RemoveKeyResult", "SyncKeysResult", "GetKeyResult", "GetKeysResult",
+C06Names == {"WantedKeyLost", "RefKeyLost", "SetKeyResult", "RemoveKeyResult", "SyncKeysResult", "GetKeyResult", "GetKeysResult",
              "GetKeysDataResult", "AddKeyRefResult", "RcRemoveKeyResult"}
 C07Names == {"Overlap", "LiveAfterRemove", "LiveAfterClear", "StartedAfterRemove", "StartedAfterClear", "RetryLost"}
 
